@@ -474,6 +474,9 @@ func genFrames(rt *rapid.T, n int, maxLen int) []string {
 		kind := rapid.SampledFrom(common.AllFrameKinds).Draw(rt, "kind")
 		ck := rapid.SampledFrom(common.CemiKinds).Draw(rt, "cemi")
 		f := common.GenFrame(rt, kind, ck)
+		if kind == "descrres" {
+			f.Extra = common.GenValidDIBs(rt) // blocks whose payload the decoder keeps: it must keep a copy
+		}
 		b, _ := common.RefEncode(f)
 		if len(b) > maxLen || len(b) < 6 {
 			continue
